@@ -16,6 +16,13 @@ REG.notes += list(h_c12.REG.notes[:1]) + [
 ]
 FUNCTIONS = ["dynetx/algorithms/paths.py:temporal_dag"]
 install_fast_nx(paths)
+_d = nx.DiGraph()
+_d.add_edge("0_0", "1_0")
+nx.is_directed_acyclic_graph(_d), _d.degree("0_0"), list(_d.nodes()), list(_d.edges())
+
+
+def is_dag(DG):
+    return models.untraced(nx.is_directed_acyclic_graph, DG)
 
 
 class LazyGLoop(LazyG):
@@ -56,6 +63,20 @@ def body(cfg, start, end, pb):
     v = None if cfg["v"] is None else nodes[cfg["v"]]
     s = None if cfg["start_none"] else start
     e = None if cfg["end_none"] else end
+    # bounds within 2 of the id range: the ValueError message formats them, and formatting an unbounded symbolic int
+    # never exhausts (it is enumerated value by value)
+    if s is not None:
+        assume((ids[0] - 2 <= s) & (s <= ids[-1] + 2))
+    if e is not None:
+        assume((ids[0] - 2 <= e) & (e <= ids[-1] + 2))
+    es = ids[0] if s is None else s
+    ee = ids[-1] if e is None else e
+    return dag_checks(G, G, u, v, s, e)
+
+
+def dag_checks(G, O, u, v, s, e):
+    """G: the graph handed to temporal_dag (LazyG or a real DynGraph); O: the oracle side (LazyG over the same bits)."""
+    ids = O.ids
     es = ids[0] if s is None else s
     ee = ids[-1] if e is None else e
     valid = sbool((ids[0] <= es) & (es <= ee) & (ee <= ids[-1]))
@@ -66,9 +87,9 @@ def body(cfg, start, end, pb):
         return not valid
     if not valid:
         return False
-    wid = window_ids(G, s, e)
+    wid = window_ids(O, s, e)
     node_type = type(u)
-    if not nx.is_directed_acyclic_graph(DG):
+    if not is_dag(DG):
         return False
     for x in DG.nodes():
         if x == u and not isinstance(x, str) or (isinstance(u, str) and x == u):
@@ -85,13 +106,13 @@ def body(cfg, start, end, pb):
         (X, sx), (Y, ty) = px, py
         if ty not in wid:
             return False
-        if not G.bit(X, Y, ty):
+        if not O.bit(X, Y, ty):
             return False
         if not (sx < ty or (x in srcset and sx == ty)):
             return False
         reach("edge")
     # sources: exactly the occurrences of u at window ids where u has a neighbour
-    exp_src = ["%s_%s" % (u, t) for t in wid if G.neighbors(u, t)]
+    exp_src = ["%s_%s" % (u, t) for t in wid if O.neighbors(u, t)]
     if sorted(sources) != sorted(exp_src) or len(set(sources)) != len(sources):
         return False
     for x in sources:
@@ -119,16 +140,17 @@ def empty_body(cfg, start, end, pb):
 
 for directed in (False, True):
     for strnodes in (False, True):
-        for ids, N in (([0, 1, 2], 3), ([0, 2, 3], 3), ([1, 3, 4, 6], 3), ([0, 1, 2], 4)):
+        for ids, N in (([0, 1], 3), ([0, 1, 2], 3), ([0, 2, 3], 3), ([1, 3, 4, 6], 3), ([0, 1, 2], 4)):
             for v in (None, 1, 0):
                 for (sn, en) in ((False, False), (True, True), (True, False), (False, True)):
                     for loops in (False, True):
                         if loops and (N == 4 or directed or len(ids) > 3):
                             continue
                         quick = (ids == [0, 1, 2] and N == 3 and not strnodes and (sn, en) in ((False, False), (True, True))
-                                 and v in (None, 1) and not directed and not (loops and (sn or v == 1))) \
+                                 and v in (None, 1) and not directed and not loops) \
+                            or (loops and ids == [0, 1] and not strnodes and v is None and (sn, en) == (True, True)) \
                             or (ids == [0, 2, 3] and strnodes and v is None and not sn and not en and not directed and not loops) \
-                            or (directed and ids == [0, 1, 2] and N == 3 and not strnodes and v is None and (sn, en) == (True, True))
+                            or (directed and ids == [0, 1] and not strnodes and v in (None, 1) and (sn, en) in ((False, False), (True, True)) and not loops)
                         REG.add("dag_%s_%s_ids%s_N%d_v%s_%s%s%s" % ("d" if directed else "u", "str" if strnodes else "int",
                                                                     "".join(map(str, ids)), N, "N" if v is None else v,
                                                                     "s" if not sn else "S", "e" if not en else "E", "_loops" if loops else ""),
@@ -137,7 +159,7 @@ for directed in (False, True):
                                 tier="quick" if quick else "thorough", timeout=900 if quick else 3000,
                                 tags=["edge", "no_source"] + (["invalid_window"] if not (sn and en) else []), twins=1,
                                 bounds="%s over %d %s nodes%s, snapshot ids %s, lazily decided presence bit per (pair, id), root = first "
-                                       "node, target %s, window [%s, %s] with UNBOUNDED symbolic bounds (valid and invalid)" %
+                                       "node, target %s, window [%s, %s] with symbolic bounds ranging from first id - 2 to last id + 2 (valid and invalid)" %
                                        ("directed" if directed else "undirected", N, "string" if strnodes else "int",
                                         " with self-loop bits" if loops else "", ids, "omitted" if v is None else "node index %d" % v,
                                         "first id" if sn else "start", "last id" if en else "end"),
@@ -148,3 +170,46 @@ for directed in (False, True):
                                      "window, both are DAG nodes")
     REG.add("dag_empty_%s" % ("d" if directed else "u"), T_dag, empty_body, cfg=dict(directed=directed), tier="quick", timeout=60,
             tags=["empty"], twins=1, bounds="graph without snapshots", what="a graph without snapshots yields an empty DAG, no sources, no targets")
+
+
+# ---- eager variant on the REAL classes ---------------------------------------------------------------------------------
+from .pathmodel import eager, eager_build  # noqa: E402
+
+
+def T_eager(pb: B48) -> bool:
+    pass
+
+
+def eager_body(cfg, pb):
+    names, dec = eager(cfg["N"], cfg["ids"], cfg["directed"], pb, cfg["strnodes"])
+    if sum(1 for x in dec.values() if x) >= 3:
+        reach("three_interactions")
+    return models.untraced(eager_run, cfg, names, dec)
+
+
+def eager_run(cfg, names, dec):
+    g, O = eager_build(names, cfg["ids"], cfg["directed"], dec)
+    if not O.ids:
+        DG, so, ta, _, _ = paths.temporal_dag(g, names[0])
+        return len(DG) == 0 and so == [] and ta == []
+    lo, hi = cfg["ids"][0] - 1, cfg["ids"][-1] + 1
+    wins = [(None, None)] + [(a, b) for a in range(lo, hi + 1) for b in range(lo, hi + 1)]
+    for u in names:
+        if u not in g._node:
+            continue                      # the property quantifies over roots that are nodes of the graph
+        for v in [None] + names:
+            for (s, e) in wins:
+                if not dag_checks(g, O, u, v, s, e):
+                    return False
+    return True
+
+
+for directed, ids in ((False, [0, 1, 2]), (True, [0, 1])):
+    for strnodes in (False, True):
+        REG.add("eager_%s_%s" % ("d" if directed else "u", "str" if strnodes else "int"), T_eager, eager_body,
+                cfg=dict(directed=directed, ids=ids, N=3, strnodes=strnodes), tier="quick" if not strnodes else "thorough", timeout=1500,
+                tags=["three_interactions"], twins=1,
+                bounds="EVERY real %s on 3 %s nodes over snapshot ids %s (one presence bit per pair and id, built through the public "
+                       "API), every root, every target (and none), every window with bounds in [first id - 1, last id + 1]" %
+                       ("DynDiGraph" if directed else "DynGraph", "string" if strnodes else "int", ids),
+                what="the same assertions as dag_*, with temporal_dag running on the real class instead of the LazyG model")
